@@ -222,6 +222,10 @@ func (p *Parser) Enter(in ast.Node) (ast.Node, bool) {
 		for i := range def.Options {
 			if def.Options[i].Tp == ast.ColumnOptionComment {
 				comment = def.Options[i].StrValue
+				// the parser keeps the text of COMMENT '...' in the option's expression, not in StrValue
+				if v, ok := def.Options[i].Expr.(ast.ValueExpr); ok && comment == "" {
+					comment = v.GetDatumString()
+				}
 			}
 		}
 
